@@ -45,7 +45,7 @@ func genLakeCase(t *rapid.T) LakeCase {
 		Thresh: pickOf(t, "thresh", []int64{1, 60, 200, 0}), Stride: pickOf(t, "stride", []int{1, 0})}}
 	// the two columns the auto-vectorized shapes look at
 	sKinds := pickOf(t, "s-kinds", [][]string{{"string"}, {"string"}, {"string"}, {"string"}, {"string", "nullstr"}, {"string", "missing"}, {"string", "int64"}, {"int64"}, {"string", "nullstr", "missing"}, {"bool"}})
-	nKinds := pickOf(t, "n-kinds", [][]string{{"int64"}, {"int64"}, {"int64"}, {"int64"}, {"uint64"}, {"float64q"}, {"int64", "float64q"}, {"int64", "nullint"}, {"int64", "missing"}, {"int64", "string"}, {"int32"}, {"int64", "uint64"}})
+	nKinds := pickOf(t, "n-kinds", [][]string{{"int64"}, {"int64"}, {"int64"}, {"int64"}, {"int64", "nullint"}, {"int32", "nullint"}, {"uint64"}, {"float64q"}, {"int64", "float64q"}, {"int64", "nullint"}, {"int64", "missing"}, {"int64", "string"}, {"int32"}, {"int64", "uint64"}})
 	nb := ir(t, 1, 3, "nbatches")
 	// 6%: one long load into large objects, so that columns with more than 256 distinct values (plain vectors) occur
 	long := chance(t, 6, "long")
@@ -84,7 +84,7 @@ func genLakeCase(t *rapid.T) LakeCase {
 		{"from p | count() by s", "countby", "s"}, {"from p | count() by s", "countby", "s"}, {"from p | sum(n)", "sum", "n"}, {"from p | sum(n)", "sum", "n"},
 		{"from p | count() by n", "countby", "n"}, {"from p | count() by k", "countby", "k"}, {"from p | sum(k)", "sum", "k"},
 		{"from p | where n > 1 | count() by s", "countby", "s"}, {"from p | where k >= 2 | sum(n)", "sum", "n"},
-		{"from p | count() by s | sort s", "countby", "s"}, {"from p | sum(n) | put x:=sum+1", "sum", "n"},
+		{"from p | count() by s | sort s", "countby", "s"}, {"from p | sum(n) | yield {total:this}", "sum", "n"},
 		{"from p | count() by s | count()", "countby", "s"}, {"from p | sum(s)", "sum", "s"},
 		{"from p | count()", "other", ""}, {"from p | cut s | count() by s", "other", ""}, {"from p | yield n | sort this", "other", ""}, {"from p | c:=count() by s", "other", ""},
 		{"from p | sum(n) by s", "other", ""}, {"from p | where n > 0 | cut k,n | sort k", "other", ""},
@@ -287,6 +287,10 @@ func (f colFeatures) String() string {
 	return strings.Join(ks, "|") + ";" + strings.Join(es, "|")
 }
 
+func (f colFeatures) debug() string {
+	return fmt.Sprintf("predSum=%d", f.predSum)
+}
+
 // lakeRootCause attributes a difference of a vectorized run to a listed finding - only where the observed result is
 // what that finding predicts: for sum() the vector result must equal the model of HEAD's Sum operator (predSum), for
 // count() by the vector rows must be bounded by the rows of the sequential plan (dictionary counts are overwritten,
@@ -336,8 +340,17 @@ func lakeRootCause(p LakeProg, r lakeRun, f colFeatures, ref, bound []zed.Value)
 		if len(r.vals) != 1 || len(ref) != 1 {
 			return ""
 		}
-		got := r.vals[0].Deref("sum")
-		want := ref[0].Deref("sum")
+		// `sum(n)` yields the bare value; `... | yield {total:this}` wraps it
+		unwrap := func(v zed.Value) *zed.Value {
+			if rt := zed.TypeRecordOf(v.Type()); rt != nil {
+				if len(rt.Fields) != 1 {
+					return nil
+				}
+				return v.Deref(rt.Fields[0].Name)
+			}
+			return &v
+		}
+		got, want := unwrap(r.vals[0]), unwrap(ref[0])
 		if got == nil || want == nil || got.Type() != zed.TypeInt64 || got.IsNull() || got.Int() != f.predSum {
 			return ""
 		}
@@ -538,6 +551,7 @@ func runLakeCase(c LakeCase) *vt.Outcome {
 					sig = "C09/lake/" + rc
 				} else {
 					sig = "C09/lake/vectorized/" + p.Shape + "(" + feat + ")/" + sym
+					feat += " " + f.debug()
 				}
 			}
 			msg := fmt.Sprintf("%q at parallelism 2 in vector state %q (objects=%d, vectorized plan=%v, column %s: %s): %s; without vectors the query returns %d values, e.g. %s",
